@@ -321,6 +321,13 @@ Definition ff_edge (bd : dir) (p : port) (ei eo : bool) (o oe : Z) (st : pstate)
      (if eo && negb (dir_eqb bd DIn) then mask w o else f_o s)
      (if eo && negb (dir_eqb bd DIn) then mask 1 oe else f_oe s).
 
+(* an event of a run, and the register state after a sequence of events *)
+Record ffev := Ev { ev_o : Z; ev_oe : Z; ev_st : pstate; ev_ei : bool; ev_eo : bool }.
+Definition ff_step (bd : dir) (p : port) (s : ffst) (e : ffev) : ffst :=
+  ff_edge bd p (ev_ei e) (ev_eo e) (ev_o e) (ev_oe e) (ev_st e) s.
+Definition ff_run_state (bd : dir) (p : port) (evs : list ffev) : ffst :=
+  fold_left (ff_step bd p) evs ff_init.
+
 (* ------------------------------------------------------------------ real ports: IOBuffer cells *)
 (* fabric-side connection of one cell bit: buffer member o[k] xor inv *)
 Record obit := OB { ob_k : nat; ob_inv : bool }.
@@ -401,4 +408,36 @@ Definition ibit_value (cs : list cell) (pad : ref -> bool) (b : ibit) : bool :=
               | None => false
               end
   | None => false
+  end.
+
+(* ------------------------------------------------------------------ finding C18-SIM-LHS-ALIAS *)
+(* How the Python simulator lowers an assignment target (amaranth/sim/_pyrtl.py, _LHSValueCompiler):
+   on_Signal: next_sig = mask & arg;  on_Slice: read-modify-write of the WHOLE operand;
+   on_Concat: the parts in order, each with its share of arg.  Buffer.elaborate assigns to port.o / port.oe,
+   which for derived simulation ports are such Slice/Cat trees.  The bit-level model above (assign_cat on the
+   flattened wires, which is also what the netlist does) agrees with this lowering on every generated case
+   except when a Slice is taken of a Cat that names a signal bit twice. *)
+Inductive lval := LSig (b w : nat) | LSlice (v : lval) (lo hi : nat) | LCat (parts : list lval).
+
+Fixpoint lv_wires (v : lval) : list ref :=
+  match v with
+  | LSig b w => base_refs b w
+  | LSlice v lo hi => firstn (hi - lo) (skipn lo (lv_wires v))
+  | LCat ps => (fix go (ps : list lval) : list ref :=
+                  match ps with [] => [] | p :: r => lv_wires p ++ go r end) ps
+  end.
+
+Fixpoint lv_assign (st : bstate) (v : lval) (arg : Z) : bstate :=
+  match v with
+  | LSig b w => assign_cat st (base_refs b w) arg
+  | LSlice v lo hi =>
+      let m := Z.ones (Z.of_nat (hi - lo)) in
+      lv_assign st v (Z.lor (Z.land (read_cat st (lv_wires v)) (Z.lnot (Z.shiftl m (Z.of_nat lo))))
+                            (Z.shiftl (Z.land m arg) (Z.of_nat lo)))
+  | LCat ps => (fix go (st : bstate) (ps : list lval) (off : Z) : bstate :=
+                  match ps with
+                  | [] => st
+                  | p :: r => go (lv_assign st p (Z.land (Z.ones (zlen (lv_wires p))) (Z.shiftr arg off)))
+                                 r (off + zlen (lv_wires p))
+                  end) st ps 0
   end.
